@@ -82,6 +82,7 @@ def profile(name):
     elif name == 'resources':     # C11 / C10
         p['stage_w'].update({'processor': 9, 'group': 1.5, 'handler': 1, 'buffer': 2, 'res_fanout': 2.5, 'res_series': 2.0})
         p['p_big_pool'] = 0.15
+        p['p_setup'] = 0.2
         p['p_resources'] = 1.0
         p['n_resources'] = (1, 3)
         p['res_cap'] = (1, 3)
@@ -223,6 +224,8 @@ class Gen:
             if rng.random() < self.p.get('p_cost_step', 0.2):
                 it['wo_cost_step'] = rng.choice([0.5, 1, -0.25, 2.5])
         # (else: the library's default work-order duration / capacity / cost of 0)
+        if it.get('res') and rng.random() < self.p.get('p_setup', 0):
+            it['setup'] = rng.choice([0.25, 0.5, 1])      # a user subclass with a set-up time before processing starts
         if it.get('res') and rng.random() < self.p.get('p_stop_in_release_window', 0):
             it['stop_in_release_window'] = rng.choice([2, 3, 5])
         if rng.random() < self.p.get('p_insert', 0):
@@ -990,7 +993,19 @@ def generate_fanout(seed, tie='prng', decimal=False):
         script.append({'t': min(horizon, t + rng.choice([0.5, 1, 2, 3])), 'prio': rng.choice(PRIOS),
                        'op': 'unblock' if op == 'block' else 'restore', 'target': tgt})
     script.sort(key=lambda e: e['t'])
-    spec = {'resources': {}, 'items': items, 'horizon': [horizon], 'tie': tie, 'seed': seed,
+    resources = {}
+    procs_ = [it for it in items if it['kind'] == 'processor']
+    if procs_ and not decimal and not burst and rng.random() < 0.4:
+        # one of the parallel stations needs a pool that is empty at first: it refuses its first offers although it is
+        # idle (and stays idle since then), gets its resource later, and must then be preferred as the longest idle
+        it = rng.choice(procs_)
+        it['res'] = {'r0': 1}
+        resources['r0'] = 0
+        script.append({'t': rng.choice([3, 4.5, 6, 7.5]), 'prio': rng.choice(PRIOS), 'op': 'add_capacity', 'res': 'r0',
+                       'amount': 1})
+        items[0]['ct'] = rng.choice([2, 3, 4])
+        script.sort(key=lambda e: e['t'])
+    spec = {'resources': resources, 'items': items, 'horizon': [horizon], 'tie': tie, 'seed': seed,
             'max_events': 20000, 'script': script, 'profile': 'fanout'}
     if decimal:
         spec['decimal'] = True
